@@ -1,6 +1,7 @@
 package resolve
 
 import (
+	"context"
 	"encoding/binary"
 	"math"
 	"sync"
@@ -50,6 +51,9 @@ type InflightRequest struct {
 	ID         uint64
 
 	followerCount atomic.Int32
+	// leaderCtx is the request context of the leader; when it is cancelled the leader's
+	// result (an error, or a response rendered from cancelled fetches) belongs to the leader only
+	leaderCtx context.Context
 }
 
 // followersClosed is stored into followerCount by the leader when it takes its follower
@@ -99,8 +103,9 @@ func (r *InboundRequestSingleFlight) GetOrCreate(ctx *Context, response *GraphQL
 	shard := r.shardFor(key)
 
 	request := &InflightRequest{
-		Done: make(chan struct{}),
-		ID:   key,
+		Done:      make(chan struct{}),
+		ID:        key,
+		leaderCtx: ctx.ctx,
 	}
 
 	for {
@@ -116,6 +121,10 @@ func (r *InboundRequestSingleFlight) GetOrCreate(ctx *Context, response *GraphQL
 		}
 		select {
 		case <-existing.Done:
+			if existing.leaderCtx.Err() != nil && ctx.ctx.Err() == nil {
+				// the leader's client went away; do not inherit its cancellation: start over
+				continue
+			}
 			if existing.Err != nil {
 				return nil, existing.Err
 			}
